@@ -3,7 +3,8 @@
    Code model: Model/C01.v (Message_encode / Message_decode / Options_* / value codecs; the extended-field kernels,
    _to_minimum_bytes and the format table are Gen/*.v, regenerated from /repo on every check).
    Specification: Model/C01Rfc.v (rfc_encode, WellFormed, rfc_interp — written from the RFCs) and Model/C01Utf8.v. *)
-From Verif Require Import Lib.Py Lib.Tactics Gen.options_ext Gen.optiontypes_min Gen.optnum_table Model.C01Types Model.C01Utf8 Model.C01 Model.C01Rfc Proofs.C01Utf8 Proofs.C01Ext Proofs.C01 Gen.decode_handlers Proofs.C01Transport.
+From Verif Require Import Lib.Py Lib.Tactics Gen.options_ext Gen.optiontypes_min Gen.optnum_table Model.C01Types Model.C01Utf8 Model.C01 Model.C01Rfc Model.C01Views Proofs.C01Utf8 Proofs.C01Ext Proofs.C01 Gen.decode_handlers Proofs.C01More Proofs.C01Parse.
+From Coq Require Import String.
 From Coq Require Import Permutation Sorted.
 Open Scope Z_scope.
 
@@ -65,6 +66,11 @@ Theorem C01_option_list_stable_sort : forall l,
 Proof. intros l. split; [exact (option_list_perm l)|split; [exact (option_list_sorted l)|intros n; exact (option_list_stable n l)]]. Qed.
 Print Assumptions C01_option_list_stable_sort.
 
+(* sorting again changes nothing: what option_list() of a parsed message yields is the m_opt the theorems below return *)
+Theorem C01_option_list_idempotent : forall l, option_list (option_list l) = option_list l.
+Proof. exact option_list_idempotent. Qed.
+Print Assumptions C01_option_list_idempotent.
+
 (* ---------------------------------------------------------------- 4. serialising: exactly the RFC 7252 section 3 format *)
 (* wf m: type 0..3, code 0..255, 16-bit mid, token of 0..8 bytes, and — in wire order — every option value legal for the format
    of its number, every delta and value length at most 65804 (all that RFC 7252 section 3.1 can express) *)
@@ -79,11 +85,35 @@ Theorem C01_encode_wellformed : forall m, wf m = true ->
 Proof. exact rfc_encode_WellFormed. Qed.
 Print Assumptions C01_encode_wellformed.
 
+(* the same bytes when option objects are of another class than the one registered for their number (e.g. an application's
+   UintOption under an unregistered number): options_ok_any asks for a value legal for SOME class.  Only the encode half: such
+   a value is parsed back as the class of the number (C01_decode_wellformed), so the round trip is about registered classes. *)
+Theorem C01_encode_is_rfc_any_class : forall m, header_ok 8 m = true -> options_ok_any EXT_MAX 0 (option_list (m_opt m)) = true ->
+  Message_encode m = Ok (rfc_encode (canonical m)).
+Proof. exact encode_is_rfc_any_class. Qed.
+Print Assumptions C01_encode_is_rfc_any_class.
+(* outside what section 3 can carry — a delta below 0 or above 65804, a value longer than 65804 bytes — with a legal header and
+   legal values, Message.encode raises ValueError: it never emits a truncated or mis-framed datagram *)
+Theorem C01_encode_inexpressible_any : forall m, header_ok 8 m = true -> Forall (fun o => legal_any (snd o) = true) (m_opt m) ->
+  options_ok_any EXT_MAX 0 (option_list (m_opt m)) = false -> Message_encode m = Raise ValueError.
+Proof. exact encode_inexpressible_any. Qed.
+Print Assumptions C01_encode_inexpressible_any.
+Theorem C01_encode_inexpressible : forall m, header_ok 8 m = true ->
+  Forall (fun o => legal (get_format (fst o)) (snd o) = true) (m_opt m) -> wf m = false -> Message_encode m = Raise ValueError.
+Proof. exact encode_inexpressible. Qed.
+Print Assumptions C01_encode_inexpressible.
+
 (* ---------------------------------------------------------------- 5. lossless round trip *)
 (* parsing the serialisation gives back every field, the options in option_list order (stable by number) *)
 Theorem C01_roundtrip : forall m, wf m = true -> bind (Message_encode m) Message_decode = Ok (canonical m).
 Proof. exact roundtrip. Qed.
 Print Assumptions C01_roundtrip.
+
+(* read through option_list(), as an application (and the harness) reads a message *)
+Theorem C01_roundtrip_canonical : forall m, wf m = true ->
+  exists m', bind (Message_encode m) Message_decode = Ok m' /\ canonical m' = canonical m /\ option_list (m_opt m') = option_list (m_opt m).
+Proof. exact roundtrip_canonical. Qed.
+Print Assumptions C01_roundtrip_canonical.
 
 (* ---------------------------------------------------------------- 6. every RFC-well-formed datagram parses to the RFC's fields *)
 (* (TKL <= 8, no reserved nibble 15, payload marker only before a non-empty payload, option values read by the format of their
@@ -97,6 +127,12 @@ Theorem C01_decode_wellformed : forall bs rm, WellFormed bs rm -> bytes_ok bs = 
 Proof. exact decode_wellformed. Qed.
 Print Assumptions C01_decode_wellformed.
 
+(* the relation WellFormed is exactly what the executable parser rfc_parse (Model/C01Rfc.v) accepts, with the same fields; the
+   decode streams compare rfc_parse with the oracle's Python parser, i.e. the two readings of section 3 with each other *)
+Theorem C01_rfc_parse_iff : forall bs rm, bytes_ok bs = true -> (rfc_parse bs = Some rm <-> WellFormed bs rm).
+Proof. exact rfc_parse_iff. Qed.
+Print Assumptions C01_rfc_parse_iff.
+
 (* ---------------------------------------------------------------- 7. total parsing *)
 (* For EVERY byte string: Message.decode raises UnparsableMessage — never IndexError, struct.error, ValueError,
    UnicodeDecodeError, nor does the loop run out of fuel S(len) — or returns a message m that is re-encoded to the RFC format and
@@ -107,12 +143,28 @@ Theorem C01_decode_total : forall data, bytes_ok data = true ->
 Proof. exact decode_total. Qed.
 Print Assumptions C01_decode_total.
 
-(* both UDP receive paths (udp6.py, generic_udp.py; extracted from source) wrap Message.decode in a try statement that
-   handles error.UnparsableMessage — by C01_decode_total the only exception that can arrive there *)
-Theorem C01_transports_catch_unparsable :
-  forallb catches_unparsable decode_sites = true /\ (2 <= length decode_sites)%nat.
-Proof. exact decode_sites_catch. Qed.
-Print Assumptions C01_transports_catch_unparsable.
+(* ---------------------------------------------------------------- 8. the receive paths around Message.decode *)
+(* Extracted from source on every run (Gen/decode_handlers.v; the extraction fails unless each site is
+   `try: message = Message.decode(..) / except <classes>: log.warning(..); return / ... dispatch_message(message)`):
+   udp6.py and generic_udp.py (the anchors), tinydtls.py, slipmux.py.  Each handles exactly error.UnparsableMessage ... *)
+Theorem C01_transports_catch_only_unparsable :
+  forallb catches_only_unparsable decode_sites = true /\ map fst decode_dispatch = map fst decode_sites /\
+  map fst site_handlers = map fst decode_sites /\ (4 <= List.length decode_sites)%nat.
+Proof. exact decode_sites_catch_only. Qed.
+Print Assumptions C01_transports_catch_only_unparsable.
+(* ... so, with received_datagram (Model/C01.v) instantiated with each site's generated except-clause: for every datagram the
+   path either drops it (exactly when the parser raises UnparsableMessage) or dispatches the parsed message; nothing escapes *)
+Theorem C01_received_never_escapes :
+  Forall (fun s => forall data, bytes_ok data = true ->
+    (Message_decode data = Raise UnparsableMessage /\ received_datagram (snd s) data = Dropped) \/
+    exists m, Message_decode data = Ok m /\ received_datagram (snd s) data = Dispatched m) site_handlers.
+Proof. exact received_never_escapes. Qed.
+Print Assumptions C01_received_never_escapes.
+(* "drop only": no site's except clause swallows any other exception class *)
+Theorem C01_received_drops_only_unparsable :
+  Forall (fun s => forall e, snd s e = true -> e = UnparsableMessage) site_handlers.
+Proof. exact received_only_unparsable_dropped. Qed.
+Print Assumptions C01_received_drops_only_unparsable.
 
 (* boundary (former finding C01:ext-field-65804-unencodable, fixed in 96b3185): a delta of exactly 65804 = E0 FF FF parses and
    round-trips; a message whose option needs delta 65804 is serialised; 65805 is the first value the writer rejects *)
@@ -146,6 +198,30 @@ Proof.
   apply (OWF_option 0 11 11 [] [] 11 11 [116; 101; 109; 112; 101; 114; 97; 116; 117; 114; 101] [] [] []);
     [constructor; lia|constructor; lia|reflexivity|constructor].
 Qed.
+(* hypotheses of the round-5 theorems are inhabited: a UintOption under the unregistered number 65000 (encode is the RFC's bytes,
+   the parser reads it back as opaque), a delta of 70000 or 65805 / a negative number (ValueError; a 65805-byte value is in the corpus), and the receive path on both outcomes *)
+Example C01_any_class_example :
+  let m := {| m_type := 0; m_code := 1; m_mid := 1; m_token := []; m_opt := [(65000, VUint 5)]; m_payload := [] |} in
+  wf m = false /\ options_ok_any EXT_MAX 0 (option_list (m_opt m)) = true /\ Message_encode m = Ok [64; 1; 0; 1; 225; 252; 219; 5] /\
+  mmap m_opt (Message_decode [64; 1; 0; 1; 225; 252; 219; 5]) = Ok [(65000, VOpaque [5])].
+Proof. cbv zeta. repeat split; vm_compute; reflexivity. Qed.
+Example C01_inexpressible_example :
+  let mk o := {| m_type := 0; m_code := 1; m_mid := 1; m_token := []; m_opt := o; m_payload := [] |} in
+  options_ok_any EXT_MAX 0 (option_list (m_opt (mk [(70000, VOpaque [])]))) = false /\ Message_encode (mk [(70000, VOpaque [])]) = Raise ValueError /\
+  options_ok_any EXT_MAX 0 (option_list (m_opt (mk [(-1, VOpaque [])]))) = false /\ Message_encode (mk [(-1, VOpaque [])]) = Raise ValueError /\
+  wf (mk [(2000, VOpaque []); (2000 + 65805, VOpaque [1])]) = false /\
+  Message_encode (mk [(2000, VOpaque []); (2000 + 65805, VOpaque [1])]) = Raise ValueError.
+Proof. cbv zeta. repeat split; vm_compute; reflexivity. Qed.
+Example C01_received_example :
+  received_datagram handles_udp6 [64; 1; 0; 1; 177; 255] = Dropped /\
+  (exists m, received_datagram handles_generic_udp [64; 1; 0; 1; 177; 97] = Dispatched m /\ m_opt m = [(11, VString [97])]) /\
+  received_datagram (fun _ => false) [64; 1] = Escaped UnparsableMessage /\
+  rfc_parse [64; 1; 0; 1; 177; 255] <> None /\ rfc_parse [73; 1; 0; 1; 1; 2; 3; 4; 5; 6; 7; 8; 9] = None.
+Proof.
+  split; [vm_compute; reflexivity|]. split; [eexists; split; [reflexivity|reflexivity]|].
+  split; [vm_compute; reflexivity|]. split; [vm_compute; discriminate|vm_compute; reflexivity].
+Qed.
+
 (* both outcomes of C01_decode_total occur, also for the leniently accepted datagrams *)
 Example C01_total_cases :
   Message_decode [64; 1; 0; 1; 177; 255] = Raise UnparsableMessage /\                       (* F1: string option FF *)
